@@ -32,7 +32,7 @@ pub fn run(ctx: &Ctx) -> Report {
         "Err is always admissible (the property says 'either rejects or ...')".into(),
         "path->disclosure map from the harness locator (cross-checked by C05)".into(),
     ];
-    for c in ["subset", "permutation", "edit-salt", "edit-name", "edit-value", "reserialize-whitespace", "reserialize-escapes", "repad", "wrap", "truncate", "forged", "sibling", "duplicate", "garbage"] {
+    for c in ["subset", "permutation", "edit-salt", "edit-name", "edit-value", "reserialize-whitespace", "reserialize-escapes", "repad", "wrap", "padded", "truncate", "forged", "sibling", "duplicate", "garbage"] {
         rep.floor(&format!("class.{c}"), 50);
     }
     rep.floor("outcome.exact-view", 5_000);
@@ -314,6 +314,51 @@ fn one_case(ctx: &Ctx, case: u64, l: &mut Local) {
         let mut list = genuine.clone();
         list.extend(forged.iter().cloned());
         run(l, "forged", 99, &list);
+    }
+    // presentations padded with well-formed but unreferenced disclosures to EXACTLY n entries
+    // (thresholds at which a verifier might switch its look-up structure): same claims as without
+    for n_total in [16usize, 31, 32, 33, 64, 65, 128, 256] {
+        let mut list: Vec<String> = if r.chance(50) { genuine.clone() } else { genuine.iter().filter(|_| r.chance(60)).cloned().collect() };
+        if list.len() > n_total {
+            list.truncate(n_total);
+        }
+        let mut k = 0u64;
+        while list.len() < n_total {
+            k += 1;
+            let f = if k % 2 == 0 { json!([format!("pad-salt-{case}-{k}"), format!("pad{k}"), k]) } else { json!([format!("pad-salt-{case}-{k}"), {"pad": k}]) };
+            let at = r.usize(list.len() + 1);
+            list.insert(at, b64e(f.to_string().as_bytes()));
+        }
+        run(l, "padded", n_total as u64, &list);
+    }
+    // a credential issued by a REUSED issuer (decoys on) right after another one: the earlier
+    // credential's disclosures, presented with the later JWT, reveal nothing
+    {
+        let mut issuer = api::new_issuer(cfg.alg, 0, s.explicit_alg);
+        if let (Ok(first), Ok(second)) = (pipeline::issue_with(&mut issuer, &s.u, &s.strat, cfg.holder, cfg.decoys, cfg.fmt), pipeline::issue_with(&mut issuer, &s.u, &s.strat, cfg.holder, true, cfg.fmt)) {
+            let parts = Parts { jwt: second.parts.jwt.clone(), disclosures: first.parts.disclosures.clone(), kb: None };
+            if let Some(pres) = parts.encode(cfg.fmt, 0) {
+                let v = api::verify(&pres, &resolver, None, cfg.fmt);
+                l.evals += 1;
+                l.count("class.sibling-of-reused-issuer");
+                let expected = model::with_cnf(model::view_by_set(&s.u, &s.strat.sd, &BTreeSet::new()), jwk.as_ref());
+                match &v.out {
+                    Outcome::Err(_) => l.count("outcome.rejected"),
+                    Outcome::Ok(c) if *c == expected => l.count("outcome.exact-view"),
+                    Outcome::Ok(c) => {
+                        let (at, e, g, _) = model::first_diff(&expected, c).unwrap_or_default();
+                        l.violate(Violation {
+                            subcheck: "wrong-view".into(),
+                            class: "sibling-of-reused-issuer".into(),
+                            observed: "disclosures of the credential issued just before (same issuer instance) reveal claims of the next one".into(),
+                            case,
+                            detail: json!({"input": base_input(), "at": at, "expected_there": e, "got_there": g}),
+                        });
+                    }
+                    p @ Outcome::Panic(..) => l.violate(Violation { subcheck: "panic".into(), class: "sibling-of-reused-issuer".into(), observed: p.panic_signature().unwrap(), case, detail: json!({"input": base_input()}) }),
+                }
+            }
+        }
     }
     // sibling credential over the same claims
     if let Ok(sib) = pipeline::issue_scenario(&s) {
